@@ -4,6 +4,12 @@ workloads run, for each property.  (Orchestration data only.)"""
 MC = "model_checking"
 
 PROPS = {
+    "C01": {"level": MC, "steps": [
+        {"kind": "gen", "name": "Gen_C01"},
+        {"kind": "wl", "name": "c01"},
+    ]},
+    "C09": {"level": MC, "steps": [{"kind": "wl", "name": "c09"}]},
+    "C18": {"level": MC, "steps": [{"kind": "wl", "name": "c18"}]},
     "C08": {
         "level": MC,
         "steps": [
